@@ -269,5 +269,5 @@ def bounds(tier):
 LEVEL_TEXT = ("bounded symbolic model checking of 2-safety properties: the real test function is executed on symbolic inputs and on "
               "their transformed / single-point-perturbed copy, and z3 proves flag equality (or equality outside the symbolic "
               "neighbourhood of the perturbed position)")
-LEVEL_NOTE = "bounds: n<=3/4, grid G; environment model validated by per-path witnesses"
+LEVEL_NOTE = "bounds: n<=3/5, grid G; environment model validated by per-path witnesses"
 TECHNIQUE = "relational symbolic execution (self-composition) of the real Python source over a modelled numpy/pandas + z3"
